@@ -47,6 +47,9 @@ def bodies(rng, st, shebangs):
     for sb in shebangs[:2]:
         out.append(("shebang", sb + " first line declaration\nK1 code\n"))
     # a byte order mark in front (files from Windows editors), alone and in front of a first-line declaration
+    out.append(("blank-lead", "\n\n\nK1 code after three blank lines\n"))
+    for sb in shebangs[:1]:
+        out.append(("shebang-blank-lead", sb + " first line declaration\n\n\n\nK1 code\n"))
     out.append(("bom", "\ufeffK1 code line\nK2 more\n"))
     out.append(("bom-empty", "\ufeff"))
     for sb in shebangs[:1]:
@@ -115,7 +118,8 @@ def double_run(res, ctx, root, fname, body, args_extra, t, mode, label, rng, n_r
             res.cell("later-run-refused")
         a = f.read_bytes()
         b = open(lic, "rb").read() if os.path.exists(lic) else None
-        states.append((a, b))
+        # ... and no sidecar of a sidecar or other sibling appears on the way
+        states.append((a, b, tuple(sorted(n for n in os.listdir(f.parent) if n.startswith(f.name)))))
     res.n += 1
     if states[1] != states[0]:
         key = classify(t, mode, args_extra)
